@@ -1,7 +1,7 @@
 #!/usr/bin/env python3
 """Mutation validation of the C06 monitor.
 
-usage: mutate.py <scratch worktree> [names...]
+usage: mutate.py <scratch worktree> [names...]      ("ix" = the initial-EXEC layer's mutations alone)
 
 Each mutation is applied to a pristine copy of the touched file inside the
 scratch worktree (never /repo), the C06 worker is rebuilt against it
@@ -44,6 +44,44 @@ def drop_guard(path, recv, name):
     # the lane loop no longer skips lanes whose EXEC bit is clear
     return in_func(path, recv, name, [(GUARD, ""), ("\texec := state.EXEC()\n", "\t_ = state.EXEC()\n")])
 
+
+def in_file(path, edits):
+    def apply(root):
+        p = os.path.join(root, path)
+        src = open(p).read()
+        for old, new in edits:
+            assert src.count(old) >= 1, (path, old)
+            src = src.replace(old, new, 1)
+        open(p, "w").write(src)
+    return path, apply
+
+
+GB = "amd/kernels/gridbuilder.go"
+# mutations for the initial-EXEC layer (initexec.go); names start with "ix-"
+IX = {
+    "ix-seed5(gridbuilder: new wavefront when lane index is 0)": in_file(GB, [
+        ("\t\tif wf == nil || inWGID/wavefrontSize != wf.FirstWiFlatID/wavefrontSize {", "\t\tif wf == nil || inWGID%wavefrontSize == 0 {")]),
+    "ix-gridbuilder-work-items-from-unclipped-size(InitExecMask of the full work-group)": in_file(GB, [
+        ("for z := 0; z < wg.CurrSizeZ; z++", "for z := 0; z < wg.SizeZ; z++"),
+        ("for y := 0; y < wg.CurrSizeY; y++", "for y := 0; y < wg.SizeY; y++"),
+        ("for x := 0; x < wg.CurrSizeX; x++", "for x := 0; x < wg.SizeX; x++")]),
+    "ix-gridbuilder-x-clip-ignored(rows spawned with the unclipped X extent)": in_file(GB, [
+        ("for x := 0; x < wg.CurrSizeX; x++", "for x := 0; x < wg.SizeX; x++")]),
+    "ix-gridbuilder-first-wi-flat-id-not-rounded-down": in_file(GB, [
+        ("wf.FirstWiFlatID = inWGID / wavefrontSize * wavefrontSize", "wf.FirstWiFlatID = inWGID")]),
+    "ix-gridbuilder-mask-from-position-in-wavefront(bit = number of work-items so far)": in_file(GB, [
+        ("wf.InitExecMask |= 1 << uint32(inWGID%wavefrontSize)", "wf.InitExecMask |= 1 << uint32(len(wf.WorkItems)-1)")]),
+    "ix-emu-last-wavefront-of-work-group-starts-with-exec-all-ones": in_file("amd/emu/computeunit.go", [
+        ("\twf.SetEXEC(wf.InitExecMask)\n", "\twf.SetEXEC(wf.InitExecMask)\n\tif wf.Wavefront == wf.WG.Wavefronts[len(wf.WG.Wavefronts)-1] {\n\t\twf.SetEXEC(^uint64(0))\n\t}\n")]),
+    "ix-emu-exec-from-lane-count(low n bits)": in_file("amd/emu/computeunit.go", [
+        ("\twf.SetEXEC(wf.InitExecMask)\n", "\twf.SetEXEC(wf.InitExecMask)\n\tif n := len(wf.WorkItems); n < 64 {\n\t\twf.SetEXEC(uint64(1)<<uint(n) - 1)\n\t}\n")]),
+    "ix-timing-exec-masked-with-first-wavefront-of-the-work-group": in_file("amd/timing/cu/wfdispatcher.go", [
+        ("\twf.SetEXEC(wf.InitExecMask)\n", "\twf.SetEXEC(wf.InitExecMask & wf.WG.Wfs[0].InitExecMask)\n")]),
+    "ix-timing-exec-from-lane-count(low n bits)": in_file("amd/timing/cu/wfdispatcher.go", [
+        ("\twf.SetEXEC(wf.InitExecMask)\n", "\twf.SetEXEC(wf.InitExecMask)\n\tif n := len(wf.WorkItems); n < 64 {\n\t\twf.SetEXEC(uint64(1)<<uint(n) - 1)\n\t}\n")]),
+    "ix-timing-exec-all-ones-when-lane-0-missing": in_file("amd/timing/cu/wfdispatcher.go", [
+        ("\twf.SetEXEC(wf.InitExecMask)\n", "\twf.SetEXEC(wf.InitExecMask)\n\tif wf.InitExecMask&1 == 0 {\n\t\twf.SetEXEC(^uint64(0))\n\t}\n")]),
+}
 
 MUT = {
     "vop2-drop-exec-guard(gcn3 v_min_u32)": drop_guard("amd/emu/aluvop2.go", "ALUImpl", "runVMINU32"),
@@ -89,7 +127,11 @@ MUT = {
 
 def main():
     wt = sys.argv[1]
+    MUT.update(IX)
     names = sys.argv[2:] or list(MUT)
+    if names == ["ix"]:
+        names = list(IX)
+    ix_only = all(n.startswith("ix-") for n in names)
     verif = "/verif"
     tag = hashlib.md5(wt.encode()).hexdigest()[:8]
     root = "/tmp/c06root-mut"
@@ -126,7 +168,7 @@ def main():
         finally:
             shutil.move(backup, full)
     json.dump([{"mutation": a, "result": b, "keys": c} for a, b, c in results],
-              open(os.path.join(verif, "selftest/c06/mutation_results.json"), "w"), indent=1)
+              open(os.path.join(verif, "selftest/c06/mutation_results_initexec.json" if ix_only else "selftest/c06/mutation_results.json"), "w"), indent=1)
     shutil.rmtree(root, ignore_errors=True)
 
 
